@@ -108,6 +108,7 @@ def hazards(ctx: Ctx, funcs, clause: str = "S0"):
     from rules.trunc import TruncAnalysis
     from rules.strided import absolute_offset_views
     from rules.negzero import negative_length_bounds
+    from rules.negdim import raw_negative_dim_uses
     from rules.alias import aliasing_cache_stores
     from rules.excmatch import ArgcheckRaises, mismatched_handlers
     from rules.boundary import length_equals_position
@@ -177,6 +178,13 @@ def hazards(ctx: Ctx, funcs, clause: str = "S0"):
                        (f"`{u(bcs[0]['node'])}` caches {bcs[0]['why']} by reference: after an in-place edit by the caller the "
                         f"validity test compares the object with itself and a stale result is served") if bcs else "", rel,
                        bcs[0]["node"].lineno if bcs else f.line, sample=[(x["attr"], x["why"]) for x in cs], nontrivial=False)
+        nd = raw_negative_dim_uses(f)
+        if nd:
+            col.ob("G30", clause, f"{where}::negative-dimension-normalised-before-arithmetic", False,
+                   f"`{nd[0]['name']}` may be negative (the range check admits -rank..-1) but is used un-normalised in "
+                   f"{nd[0]['kind']}" + (f" and {len(nd) - 1} more place(s)" if len(nd) > 1 else "") +
+                   ": for a negative value this names a different (or non-existent) axis than the same dimension counted from the left",
+                   rel, nd[0]["line"], sample=[x["kind"] for x in nd], nontrivial=False)
         nz = negative_length_bounds(f)
         if nz:
             bnz = [x for x in nz if not x["ok"]]
